@@ -696,6 +696,33 @@ def gen_reorder_cycle_program(rng):
     return p, steps
 
 
+def gen_same_session_program(rng):
+    """Directed family for C05/C06 (implementation only: the model's session ends at the first abort): a build of a session is
+    aborted after a task read (or wrote) a resource; the SAME session is then used for another build in which a different task
+    writes (reads) that resource without any dependency between the two.  Nothing may be executing when the second build starts."""
+    p = Prog(); p.kind = 'inject'; p.exact_only = True
+    p.sources = [0]
+    g = 10
+    mode = rng.choice(['read-then-write', 'read-then-write', 'write-then-read'])
+    # task 0 touches g and then aborts (panics itself, or requires a task that panics)
+    tail = ('P',) if rng.random() < 0.5 else ('Q', 3, 0, ('T', ('a',)))
+    p.tasks[3] = ('P',)
+    if mode == 'read-then-write':
+        p.tasks[0] = ('R', g, 0, tail)
+        p.tasks[1] = ('R', 0, 0, ('W', g, 0, ('k', 3), ('D',)))
+    else:
+        p.tasks[0] = ('W', g, 0, ('k', 3), tail)
+        p.tasks[1] = ('R', g, 0, ('T', ('a',)))
+    if rng.random() < 0.4:                       # the second task reached through a wrapper
+        p.tasks[2] = ('Q', 1, 0, ('T', ('a',)))
+        second = 2
+    else:
+        second = 1
+    p.generated = {g: (None, 0)}
+    steps = [['E', '0', str(rng.randint(0, 3))], ['E', str(g), '5'], ['Z', '2', 'q', '0', 'q', str(second)]]
+    return p, steps, {'impl_only': True}
+
+
 def gen_sibling_program(rng):
     """Directed family for C05: a top task requires several sibling chains (generators are reached TRANSITIVELY, at
     depth >= 2, so the hidden-dependency queries really walk the graph and leave work on their stack), reads the generated
